@@ -6,6 +6,7 @@ require (
 	github.com/aws/aws-sdk-go v1.55.8
 	github.com/jrhy/s3db v0.0.0
 	github.com/mattn/go-sqlite3 v1.14.49
+	google.golang.org/protobuf v1.36.12
 )
 
 require (
@@ -21,7 +22,6 @@ require (
 	go.riyazali.net/sqlite v0.0.0-20250204091031-8aa392720bb1 // indirect
 	golang.org/x/crypto v0.55.0 // indirect
 	golang.org/x/sys v0.47.0 // indirect
-	google.golang.org/protobuf v1.36.12 // indirect
 )
 
 replace github.com/jrhy/s3db => /repo
